@@ -214,7 +214,7 @@ EnumFrags == {FEnum(it) : it \in {
 MiscFrags == {FMisc(k) : k \in {"toplevel_semi", "nested_fn", "missing_semi", "unbalanced_paren", "kw_as_ident", "asm_label", "attr_ok",
    "typedef_asm", "attr_after_paren", "attr_aligned_bad", "attr_aligned_unsup", "vla_static", "vla_init", "vla2_init", "vla_ok",
    "scalar_double_brace", "init_missing_comma", "nullptr_assign", "const_fold_overflow_s", "const_fold_overflow_u",
-   "static_init_addr_local", "static_init_addr_compound", "static_init_addr_index", "static_init_addr_ok"}}
+   "static_init_addr_local", "static_init_addr_compound", "static_init_addr_index", "static_init_addr_ok", "eof_comment_decl"}}
 DeclFrags == SpecFrags \cup ScFrags \cup ObjFrags \cup BfFrags \cup AlignasFrags \cup ArrFrags \cup SaFrags \cup InitFrags
              \cup StrInitFrags \cup StructFrags \cup ParamFrags \cup FdeclFrags \cup RedeclFrags \cup TagFrags \cup EnumFrags
              \cup MiscFrags \cup SInitFrags
@@ -236,8 +236,10 @@ DirFrags ==
   {[D0("define") EXCEPT !.fl = f, !.paste = TRUE] : f \in BOOLEAN} \cup
   {[D0(d) EXCEPT !.named = FALSE] : d \in {"define", "undef"}} \cup
   {[D0(d) EXCEPT !.extra = TRUE] : d \in {"undef"}}
-FMinv(n, closed) == [form |-> "minv", nargs |-> n, closed |-> closed]
-MinvFrags == {FMinv(n, c) : n \in 0..3, c \in BOOLEAN}
+(* invocation of the two-parameter prelude macros MF(a, b) = ((a) + (b)) and MG(a, b) = ((a) b) *)
+FMinvM(n, closed, m) == [form |-> "minv", nargs |-> n, closed |-> closed, m |-> m]
+FMinv(n, closed) == FMinvM(n, closed, "MF")
+MinvFrags == {FMinvM(n, c, m) : n \in 0..3, c \in BOOLEAN, m \in {"MF", "MG"}}
 DirForms == {"dir"}
 
 None == [form |-> "none"]
@@ -247,7 +249,10 @@ AllFrags == ExprFrags \cup StmtFrags \cup CtlFrags \cup DeclFrags \cup DirFrags 
 (* tokens of f's spelling whose removal can never leave a program derivable from the grammar: closing brackets (the     *)
 (* translation unit becomes unbalanced), the colon of a label / conditional / bit-field / association, and the           *)
 (* semicolon that ends a jump statement or a declaration (the next token of every base is `}`, a keyword or a call).      *)
-FDrop(f, t) == [form |-> "drop", of |-> f, tok |-> t]
+FDrop(f, t) == [form |-> "drop", of |-> f, tok |-> t, with |-> ""]
+(* the same with the token replaced by a closing bracket of another kind (still unbalanced) *)
+FSwap(f, t, w) == [form |-> "drop", of |-> f, tok |-> t, with |-> w]
+SwapWith(t) == CASE t = ")" -> {"]", "}"} [] t = "]" -> {")"} [] t = "}" -> {")"} [] OTHER -> {}
 Closers(f) ==
   CASE f.form \in {"bin", "asg", "un", "call", "cast", "sizeoft", "builtin", "ctl", "alignas", "sa", "param", "fdecl"} -> {")"}
     [] f.form \in {"cond", "generic"} -> {")", ":"}
